@@ -12,7 +12,7 @@ use std::collections::BTreeSet;
 use std::io::{Read, Write};
 use std::net::TcpStream;
 use std::num::NonZeroU64;
-use std::sync::Arc;
+use std::sync::{Arc, Mutex};
 use std::time::{Duration, Instant};
 
 fn gen_model(rng: &mut Rng, max_n: usize) -> (GraphModel, Reach) {
@@ -110,6 +110,77 @@ fn path_api_case(case: &mut Case) {
                 return;
             }
         }
+    }
+}
+
+// -- (2b) requests while the on-demand checker runs to completion --------------------------------
+
+/// `check_fingerprint` must stay a request, not a rendez-vous: while a long `run_to_completion`
+/// is in progress, a burst of requests (for states that are not pending) must be accepted
+/// without blocking the caller (the Explorer's single web thread is such a caller). The verdict
+/// rests on the pattern "several calls returned at once, then one call stayed blocked until the
+/// checker had finished", not on an absolute latency.
+fn requests_during_completion_case(case: &mut Case) {
+    let (d, w) = *case.rng.pick(&[(6usize, 2000usize), (5, 3000)]);
+    let mut g = crate::graph::gen_graph(&mut case.rng, &crate::graph::Knobs { layered: Some((d, w)), ..crate::graph::Knobs::default() });
+    // slow enough that the run lasts about two seconds whatever part of the graph is reachable
+    let reachable = g.reach().count.max(1) as u64;
+    g.spin_us = (2_000_000 / reachable).clamp(80, 20_000);
+    g.labels.push(vec![true; g.n]);
+    g.props.push((stateright::Expectation::Always, g.labels.len() - 1));
+    let n = g.n;
+    case.distinct(g.structural_hash(), true);
+    let model = GraphModel(Arc::new(g));
+    case.sample(|| model.summary());
+    let threads = 1usize;
+    let checker = model.clone().checker().threads(threads).spawn_on_demand();
+    checker.run_to_completion();
+    let calls = 60usize;
+    let targets: Vec<u32> = (0..calls).map(|_| (n + 10 + case.rng.below(1000)) as u32).collect(); // never pending
+    let returned: Arc<Mutex<Vec<Instant>>> = Arc::new(Mutex::new(Vec::new()));
+    let t0 = Instant::now();
+    let (done_at, finished_calls) = std::thread::scope(|scope| {
+        let (checker, returned2, targets) = (&checker, returned.clone(), &targets);
+        scope.spawn(move || {
+            for s in targets {
+                checker.check_fingerprint(NonZeroU64::new(fingerprint_of(s)).unwrap());
+                returned2.lock().unwrap().push(Instant::now());
+            }
+        });
+        // wait for the checker to finish (watchdog: inconclusive)
+        let mut done_at = None;
+        while t0.elapsed() < Duration::from_secs(60) {
+            if checker.is_done() {
+                done_at = Some(Instant::now());
+                break;
+            }
+            std::thread::sleep(Duration::from_micros(300));
+        }
+        (done_at, ())
+    });
+    let _ = finished_calls;
+    let Some(done_at) = done_at else {
+        case.inconclusive("run_to_completion did not finish within 60 s");
+        return;
+    };
+    case.add("bursts_during_run_to_completion", 1);
+    let returned = returned.lock().unwrap().clone();
+    let before_done: Vec<&Instant> = returned.iter().filter(|t| **t < done_at).collect();
+    case.add("requests_accepted_while_running", before_done.len() as u64);
+    if before_done.len() == calls {
+        return; // every request was accepted while the run was still going on
+    }
+    let run_s = done_at.duration_since(t0).as_secs_f64();
+    let last_quick = before_done.last().map(|t| done_at.duration_since(**t).as_secs_f64());
+    match last_quick {
+        Some(gap) if before_done.len() >= 5 && gap >= 0.5 => {
+            case.violation(
+                "C19/on_demand/check_fingerprint-blocks-while-running-to-completion",
+                json!({"model": model.summary(), "threads": threads, "requests": calls, "accepted_at_once": before_done.len(),
+                       "then_blocked_for_s_until_the_checker_finished": gap, "run_s": run_s}),
+            );
+        }
+        _ => case.inconclusive(&format!("only {} of {} requests returned before the run ended after {:.2}s (run too short or caller starved)", before_done.len(), calls, run_s)),
     }
 }
 
@@ -555,5 +626,6 @@ pub fn run(ctx: &mut Ctx) {
     let ctx = &*ctx;
     ctx.cases("path_api", ctx.n(1500, 25000), 0, path_api_case);
     ctx.cases("on_demand_api", ctx.n(500, 8000), 0, on_demand_case);
+    ctx.cases("on_demand_requests_during_completion", ctx.n(4, 40), 2, requests_during_completion_case);
     ctx.cases("explorer_http", ctx.n(24, 500), 6, explorer_case);
 }
